@@ -10,6 +10,13 @@ class Run:
         self.own_new = own_new; self.max_witnesses = max_witnesses; self.opt = opt; self.shared_points = shared_points; self.mt = mt; self.gnuc = gnuc
 
 
+class BmcRun(Run):
+    """E-bmc run: kernel TU (extern "C" noinline wrappers of heap-free real code) + CBMC law harness"""
+    def __init__(self, name, kernel, laws, entry='laws', unwind=4, std='c++17', bounds='', budget_s=600):
+        Run.__init__(self, name, kernel, {}, std=std, entry=entry, bounds=bounds, budget_s=budget_s, native=())
+        self.kind = 'bmc'; self.laws = laws; self.unwind = unwind
+
+
 class Prop:
     def __init__(self, quick, thorough=None, outside='', assumptions=None):
         self.quick = quick; self.thorough = thorough or quick; self.outside = outside; self.assumptions = assumptions or []
@@ -132,10 +139,11 @@ _AI = 'AnyId<Dig,%s>: three ids (%s) with fully symbolic 64-bit digests and 32-b
 PROPS['C18'] = Prop(
     quick=[Run('anyid_laws_storage', 'anyid.cpp', {'STORAGE': 1, 'MAPK': 0}, covers=3, bounds=_AI % ('value storage with == and <', 'laws')),
            Run('anyid_laws_nostorage', 'anyid.cpp', {'STORAGE': 0, 'MAPK': 0}, covers=3, bounds=_AI % ('EmptyAnyStorage', 'laws')),
+           BmcRun('anyid_laws_cbmc', 'anyid_kernel.cpp', 'anyid_laws.c', bounds='E-bmc cross-check: the real operator==, operator< and std::hash<AnyId> (both storages) lowered by clang, translated IR->C, and 15 laws over three ids decided by CBMC in one merged formula: fully symbolic 64-bit digests and 32-bit values, no loops (unwind 4 with unwinding assertions)'),
            Run('anyid_map_storage', 'anyid.cpp', {'STORAGE': 1, 'MAPK': 1}, covers=5, optional_covers=(1, 2), bounds=_AI % ('value storage', 'std::map dispatcher: 3 registered ids, dispatch by a 4th')),
-           Run('anyid_hash_storage', 'anyid.cpp', {'STORAGE': 1, 'MAPK': 2}, covers=5, optional_covers=(1, 2), bounds=_AI % ('value storage', 'std::unordered_map dispatcher: 3 registered ids, dispatch by a 4th; digests restricted to 8 significant bits in this run')),
+           Run('anyid_hash_storage', 'anyid.cpp', {'STORAGE': 1, 'MAPK': 2}, covers=5, optional_covers=(1, 2), bounds=_AI % ('value storage', 'std::unordered_map dispatcher: 2 registered ids, dispatch by a 3rd; digests restricted to 8 significant bits in this run (13 buckets: every symbolic lookup forks 13 ways)')),
            Run('anyid_map_nostorage', 'anyid.cpp', {'STORAGE': 0, 'MAPK': 1}, covers=5, optional_covers=(1, 2), bounds=_AI % ('EmptyAnyStorage', 'std::map dispatcher')),
-           Run('anyid_hash_nostorage', 'anyid.cpp', {'STORAGE': 0, 'MAPK': 2}, covers=5, optional_covers=(1, 2), bounds=_AI % ('EmptyAnyStorage', 'std::unordered_map dispatcher; digests restricted to 8 significant bits in this run'))],
+           Run('anyid_hash_nostorage', 'anyid.cpp', {'STORAGE': 0, 'MAPK': 2}, covers=5, optional_covers=(1, 2), bounds=_AI % ('EmptyAnyStorage', 'std::unordered_map dispatcher: 2 registered ids + 1; digests restricted to 8 significant bits in this run'))],
     outside='more than three ids in a law / four in a dispatcher; Storage types supporting only one of == and <; std::any storage',
     assumptions=['Digester is a functional stub (arbitrary 64-bit digest per distinct value); unordered_map bucket growth is the model in support/stdsupport.cpp'])
 
@@ -337,4 +345,4 @@ PROPS['C20'] = Prop(
 PROPS['C20'].note = 'The compiler dimension (g++ vs clang++, unspecified evaluation order) is covered by witness replay on native g++/clang++ builds, not by a solver verdict.'
 
 HOOK_COMMITS = []
-EBMC_PROPS = []
+EBMC_PROPS = ['C18']
